@@ -236,11 +236,15 @@ void execute_compiler(const Plan& plan) {
   sim::heap::configure(int(plan.get("junk", 0)), int(plan.get("realloc_move", 0)), int(plan.get("shift", 0)), plan.seed);
   sim::heap::arm(true);
   {
-    Environment env(Arch::kX64);
+    int arch = int(plan.get("arch", 1));   // 2: AArch64, otherwise x86-64
+    Environment env(arch == 2 ? Arch::kAArch64 : Arch::kX64);
     CodeHolder code;
     SIM_CHECK(code.init(env) == Error::kOk, "c19:setup", "CodeHolder::init failed");
-    x86::Compiler cc(&code);
-    FuncNode* fn = cc.add_func(FuncSignature::build<void>());
+    x86::Compiler xcc; a64::Compiler acc;
+    BaseCompiler& cc = arch == 2 ? static_cast<BaseCompiler&>(acc) : static_cast<BaseCompiler&>(xcc);
+    bool attached = code.attach(&cc) == Error::kOk;
+    SIM_CHECK(attached || sim::run_faults_fired_total() > 0, "c19:setup", "attach failed");
+    FuncNode* fn = attached ? cc.add_func(FuncSignature::build<void>()) : nullptr;
     struct Handed { uint32_t label_id; size_t offset; std::string bytes; };
     std::vector<Handed> handed;
     Model scopes[2];
@@ -258,7 +262,8 @@ void execute_compiler(const Plan& plan) {
       }
       if (data.empty()) { sim::end_op(); continue; }
       int scope = int(op.a[3] & 1);
-      x86::Mem mem = cc.new_const(ConstPoolScope(scope), data.data(), data.size());
+      BaseMem mem;
+      (void)cc._new_const(Out<BaseMem>(mem), ConstPoolScope(scope), data.data(), data.size());
       if (mem.is_none() || !mem.has_base_label()) {
         SIM_CHECK(sim::run_faults_fired_total() > 0, "c19:new-const-failed", "new_const(%zu bytes) failed without a fault", data.size());
         failed = true;
@@ -267,15 +272,15 @@ void execute_compiler(const Plan& plan) {
         handed.push_back(Handed{mem.base_id(), size_t(mem.offset()), data});
         history.push_back(data);
         // keep the constant referenced by an instruction so that the pool is serialised
-        x86::Gp r = cc.new_gp64();
-        cc.lea(r, mem);
+        if (arch == 2) { a64::Gp r = acc.new_gp64(); acc.adr(r, Label(mem.base_id())); }
+        else { x86::Gp r = xcc.new_gp64(); xcc.lea(r, mem.as<x86::Mem>()); }
         sim::logf("new_const scope=%d size=%zu off=%zu", scope, data.size(), size_t(mem.offset()));
       }
       sim::end_op();
     }
     sim::begin_op(Op(), plan.ops.size());
     if (!failed) {
-      cc.ret();
+      if (arch == 2) acc.ret(); else xcc.ret();
       cc.end_func();
       Error e = cc.finalize();
       if (e != Error::kOk) SIM_CHECK(sim::run_faults_fired_total() > 0, "c19:finalize-failed", "finalize failed with %u without a fault", unsigned(e));
@@ -352,11 +357,11 @@ const char* const kAssumptions[] = {
   "Constants smaller than 4 bytes are not required to share storage with wider constants (the implementation documents that it stops splitting at 4 bytes); only identical (size, bytes) pairs must share an offset.",
   "After an injected allocation failure add() may fail; every offset returned before must remain valid.",
   nullptr};
-const char* const kReal[] = {"asmjit ConstPool, Arena, x86::Assembler::embed_const_pool, x86::Compiler::new_const + finalize (built from /repo)", nullptr};
+const char* const kReal[] = {"asmjit ConstPool, Arena, x86/a64 Assembler and Builder embed_const_pool, x86/a64 Compiler _new_const + finalize (built from /repo)", nullptr};
 const char* const kStub[] = {"H1 arena fault point, SimHeap failure decisions / junk fill, H3/H4 knobs", nullptr};
 const sim::PropInfo kInfo = {"C19", "exploration",
   "Each run is one seed: arena block size, heap junk fill, fault class and a history of 2..600 add operations (fresh random / low-entropy / repeated values, halves-quarters-eighths of earlier constants, wider constants built from earlier ones, invalid sizes), fill() into a guarded buffer, reset(). "
-  "Scenario 'pool' drives ConstPool directly; 'embed' writes the pool out through x86::Assembler::embed_const_pool; 'compiler' creates constants through x86::Compiler::new_const in local and global scope and checks the finalized section. "
+  "Scenario 'pool' drives ConstPool directly; 'embed' writes the pool out through embed_const_pool of an Assembler or a Builder (+finalize) for x86-32, x86-64 and AArch64 behind 0..69 bytes of data; 'compiler' creates constants through the x86-64 or AArch64 Compiler (_new_const) in local and global scope and checks the finalized section. "
   "Oracle: byte-level reference model of every successful add (alignment, stability, deduplication, overlap only where bytes agree, zero gaps, bounds, reported size/alignment). Non-trivial = at least one constant was added; distinct = distinct event-log hashes.",
   kAssumptions, kReal, kStub};
 sim::PropInfoRegistrar reginfo(kInfo);
